@@ -1,54 +1,10 @@
 """C01 -- sharded accumulation: merge trees equal a single instance."""
 from .. import core, history, generic
 from ..catalogue import entries
-from ..model import run_model, crosscheck_in_coq
+from .. import streams
 
-PROPS_FILES = ["Props/C01.v"]
 LEVEL_NOTE = ("generic merge-tree theorem + per-class Alg instances; tie = history correspondence (state-level) "
               "of the Coq pool model against the real classes; exact arithmetic, float re-association absorbed by tolerance")
-
-
-def corr_stream(ctx, mix=None, name="history-correspondence", nhist=None, ents=None):
-    s = ctx.stream(name)
-    cases, meta = [], []
-    for e in (ents or entries()):
-        if not e.model:
-            continue
-        cfgs = e.configs(ctx.rng, ctx.quick)
-        per = nhist or ctx.n(12, 150)
-        for h in range(per):
-            cfg = cfgs[h % len(cfgs)]
-            nobj = ctx.rng.choice([2, 3, 3, 4])
-            ops = history.gen_history(ctx.rng, e, cfg, nobj=nobj, nops=ctx.rng.choice([4, 8, 14]), mix=mix)
-            cases.append(history.model_case(e, cfg, nobj, ops))
-            meta.append((e, cfg, nobj, ops))
-    outs = run_model(cases)
-    bad_entries = {}
-    for (e, cfg, nobj, ops), mobs in zip(meta, outs):
-        iobs = history.run_impl(e, cfg, nobj, ops)
-        d = history.compare_obs(e, ops, mobs, iobs)
-        kinds = {o[0] for o in ops}
-        s.case((e.name, repr(cfg), repr(ops)), len(kinds) >= 3 and len(ops) >= 4,
-               sample={"class": e.name, "cfg": cfg, "nobj": nobj, "ops": [list(o[:2]) for o in ops][:8]})
-        s.count("class:" + e.name)
-        for o in ops:
-            s.count("op:" + o[0])
-        if d and e.name not in bad_entries:
-            def fails(trial, e=e, cfg=cfg, nobj=nobj):
-                return history.check_history(e, cfg, nobj, trial) is not None
-            small = history.shrink_ops(ops, fails)
-            small = history.shrink_batches(e, cfg, small, fails)
-            d2 = history.check_history(e, cfg, nobj, small) or d
-            bad_entries[e.name] = {"class": e.name, "cfg": cfg, "nobj": nobj, "ops": small, "disagreement": d2}
-            s.mismatches.append(bad_entries[e.name])
-    n, dis = crosscheck_in_coq(cases, outs, ctx.prop + name.replace("-", ""), limit=ctx.n(60, 200))
-    ctx.oblige("tie:extraction-vs-vm_compute", dis == 0, detail=f"{dis} of {n} sampled cases differ between extracted OCaml and in-Coq vm_compute")
-    s.dist["in_coq_crosschecked"] = n
-    for e in (ents or entries()):
-        if e.model:
-            m = bad_entries.get(e.name)
-            ctx.oblige(f"tie:corr:{e.name}", m is None, detail=repr(m)[:1500] if m else "")
-    return bad_entries
 
 
 def tree_stream(ctx):
@@ -107,5 +63,5 @@ def _has_form(t, form):
 
 
 def run(ctx):
-    corr_stream(ctx)
+    streams.hist_corr(ctx)
     tree_stream(ctx)
